@@ -96,6 +96,36 @@ def parse_doc(doc):
     return kinds, rets, options
 
 
+def _simple_generator_to_genexp(fn):
+    """a generator function whose body is one loop that yields one expression, possibly under ifs without else:
+
+        def f(xs):                      def f(xs):
+            for x in xs:        ==>         return (e(x) for x in xs if p(x))
+                if p(x):
+                    yield e(x)
+
+    (the caller iterates it or hands it to list(): the same elements in the same order).  Rewritten when the module is loaded, so that every analysis sees an
+    ordinary function; anything else that yields is left alone"""
+    body = [b for b in fn.body if not (isinstance(b, ast.Expr) and isinstance(b.value, ast.Constant))]
+    if len(body) != 1 or not isinstance(body[0], ast.For) or body[0].orelse:
+        return
+    loop = body[0]
+    conds, inner = [], loop.body
+    while len(inner) == 1 and isinstance(inner[0], ast.If) and not inner[0].orelse:
+        conds.append(inner[0].test)
+        inner = inner[0].body
+    if len(inner) != 1 or not isinstance(inner[0], ast.Expr) or not isinstance(inner[0].value, ast.Yield) or inner[0].value.value is None:
+        return
+    if any(isinstance(x, (ast.Yield, ast.YieldFrom)) for c in conds for x in ast.walk(c)) or any(isinstance(x, (ast.Yield, ast.YieldFrom)) for x in ast.walk(inner[0].value.value)):
+        return
+    gen = ast.GeneratorExp(elt=inner[0].value.value, generators=[ast.comprehension(target=loop.target, iter=loop.iter, ifs=conds, is_async=0)])
+    ret = ast.Return(value=gen)
+    ast.copy_location(gen, loop)
+    ast.copy_location(ret, loop)
+    ast.fix_missing_locations(ret)
+    fn.body = [b for b in fn.body if isinstance(b, ast.Expr) and isinstance(b.value, ast.Constant)] + [ret]
+
+
 class Model:
     """All modules / functions of one source tree."""
 
@@ -142,6 +172,9 @@ class Model:
                 tree = ast.parse(src, filename=rel)
             except SyntaxError as e:
                 raise AnalysisError(f'{rel} does not parse: {e}')
+            for n_ in ast.walk(tree):
+                if isinstance(n_, ast.FunctionDef):
+                    _simple_generator_to_genexp(n_)
             self.mods[mod], self.paths[mod], self.src[mod] = tree, rel, src
             self.is_pkg[mod] = pkgflag
         for mod, tree in self.mods.items():
